@@ -30,6 +30,9 @@ type c14Draw struct {
 	Stroke []int
 	Grad   bool // fill with a gradient instead of Fill
 	GradR  bool `json:",omitempty"` // the gradient is radial (coverage and "painted" are judged, not its colour)
+	// Dash: dash array of the stroke in units of the stroke width (nil: solid), DashOff its offset
+	Dash    []float64 `json:",omitempty"`
+	DashOff float64   `json:",omitempty"`
 	// LStops: offset, R, G, B quintuples (alpha 255) of the linear gradient; nil: c14Stop0 at 0, c14Stop1 at 1
 	LStops []float64 `json:",omitempty"`
 	Width  float64
@@ -200,6 +203,34 @@ func genC14Once(kind string, r *core.Rng) *c14Case {
 					d.GradR = r.Chance(0.4)
 				}
 			}
+			if kind == "dashed" {
+				// dashed strokes of widths other than 1 (dash lengths are multiples of the width)
+				d.Stroke = col()
+				d.Width = r.Range(0.4, 2.5)
+				d.Cap, d.Join = r.Intn(3), r.Intn(3)
+				for k, nd := 0, r.IntRange(1, 3); k < nd; k++ {
+					d.Dash = append(d.Dash, r.Range(1.5, 5))
+				}
+				d.DashOff = core.PickF(r, []float64{0, 0, 1, r.Range(-3, 3)})
+				if r.Bool() {
+					d.Fill = nil
+				}
+				// at least four periods along the path: what DrawPath does with paths shorter than a dash or a
+				// gap (it may drop the dashes or the stroke) is not this property's subject
+				per := 0.0
+				for _, v := range d.Dash {
+					per += v * d.Width
+				}
+				if len(d.Dash)%2 == 1 {
+					per *= 2
+				}
+				if L := pathFrom(d.Data).Length(); per > L/4 && L > 0 {
+					f := L / 4 / per
+					for i := range d.Dash {
+						d.Dash[i] *= f
+					}
+				}
+			}
 			if kind == "gradient-stops" {
 				// a large shape filled with a linear gradient of 2-4 stops; the first may lie after 0, the last
 				// before 1 (strictly increasing offsets with two decimals)
@@ -360,6 +391,7 @@ func c14Check(ci any, o *core.Obs) {
 			ctx.SetStrokeWidth(d.Width)
 			ctx.SetStrokeCapper(c14Caps[d.Cap])
 			ctx.SetStrokeJoiner(c14Joins[d.Join])
+			ctx.SetDashes(d.DashOff, d.Dash...)
 		}
 		ctx.SetFillRule(canvas.FillRule(d.Rule))
 		ctx.DrawPath(d.X, d.Y, p)
@@ -388,7 +420,16 @@ func c14Check(ci any, o *core.Obs) {
 			// to the canvas by this monitor's own arithmetic and filled non-zero
 			var outline *canvas.Path
 			if !o.Call("Path.Stroke", func() {
-				outline = p.Stroke(d.Width, c14Caps[d.Cap], c14Joins[d.Join], 0.1/c.DPMM) // a tenth of a pixel, as documented for PixelTolerance
+				q := p
+				if len(d.Dash) > 0 {
+					// dashes are given in units of the stroke width
+					ds := make([]float64, len(d.Dash))
+					for i := range ds {
+						ds[i] = d.Dash[i] * d.Width
+					}
+					q = p.Dash(d.DashOff*d.Width, ds...)
+				}
+				outline = q.Stroke(d.Width, c14Caps[d.Cap], c14Joins[d.Join], 0.1/c.DPMM) // a tenth of a pixel, as documented for PixelTolerance
 			}) {
 				return
 			}
@@ -766,6 +807,7 @@ func init() {
 			{Name: "view", Quick: 300, Thorough: 25000, Gen: genC14("view")},
 			{Name: "rule", Quick: 300, Thorough: 15000, Gen: genC14("rule")},
 			{Name: "lowres", Quick: 300, Thorough: 8000, Gen: genC14("lowres")},
+			{Name: "dashed", Quick: 300, Thorough: 8000, Gen: genC14("dashed"), Note: "dashed strokes of widths other than 1 (the canvas keeps dashes in units of the width; every rendering scales them)"},
 			{Name: "images", Quick: 200, Thorough: 4000, Gen: genC14("images"), Note: "a raster image below the shapes, mostly in non-linear colour spaces: rendering twice gives the same image and leaves the source image alone (the image's own pixels are not judged)"},
 			{Name: "gradient-stops", Quick: 300, Thorough: 8000, Gen: genC14("gradient-stops"), Note: "linear gradients of 2-4 stops whose first stop may lie after 0 and whose last before 1"},
 			{Name: "dense", Quick: 60, Thorough: 1500, Gen: genC14("dense"), Note: "closed polylines of 600-3000 vertices, hundredths of a pixel apart"},
